@@ -174,6 +174,11 @@ func scTConc(r *Run) {
 			if r.Intn("op", 3) == 0 {
 				o.pause = time.Duration(r.Intn("op", 60)) * time.Millisecond
 			}
+			if r.Intn("op", 12) == 0 {
+				// long enough for a handshake in the program to have timed out or failed meanwhile (HSTimeout
+				// is 2 s): the operation then meets the connection in its error state
+				o.pause = time.Duration(1500+r.Intn("op", 2500)) * time.Millisecond
+			}
 			progs[g] = append(progs[g], o)
 			desc = append(desc, fmt.Sprintf("g%d:%s(%d)", g, tOpNames[o.op], o.arg))
 		}
